@@ -26,12 +26,12 @@ for m in avl_shapes(3):
     if m:
         UNITS.append(T("avl_remove_d3_s%02x" % m, "h_remove", 3, defs=["A_SIZE_POINTER=1", "SHAPE=0x%x" % m], functions=REM, bound=b, timeout=900))
 UNITS += [
-    U("avl_lemma_growth", "avl_lemma.c", "h_growth", level="L", functions=["a_avl_handle_growth", "a_avl_rotate", "a_avl_rotate2"], replay={"prog": "trees_search.c", "sources": ["avl.c"], "mode": "avl", "timeout": 600}, min_obl=3, unwind=5,
+    U("avl_lemma_growth", "avl_lemma.c", "h_growth", level="L", functions=["a_avl_handle_growth", "a_avl_rotate", "a_avl_rotate2"], replay={"prog": "trees_search.c", "sources": ["avl.c", "rbt.c"], "mode": "avl", "timeout": 600}, min_obl=3, unwind=5,
       cbmc=["--object-bits", "10"], solver="cadical", timeout=600, key=["handle_growth"]),
-    U("avl_lemma_shrink", "avl_lemma.c", "h_shrink", level="L", functions=["a_avl_handle_shrink", "a_avl_rotate", "a_avl_rotate2"], replay={"prog": "trees_search.c", "sources": ["avl.c"], "mode": "avl", "timeout": 600}, min_obl=3, unwind=5,
+    U("avl_lemma_shrink", "avl_lemma.c", "h_shrink", level="L", functions=["a_avl_handle_shrink", "a_avl_rotate", "a_avl_rotate2"], replay={"prog": "trees_search.c", "sources": ["avl.c", "rbt.c"], "mode": "avl", "timeout": 600}, min_obl=3, unwind=5,
       cbmc=["--object-bits", "10"], solver="cadical", timeout=600, key=["handle_shrink"]),
     U("avl_lemma_splice", "avl_lemma.c", "h_splice", level="L", functions=["a_avl_handle_remove", "a_avl_new_child", "a_avl_set_parent"], min_obl=3, unwind=7,
-      replay={"prog": "trees_search.c", "sources": ["avl.c"], "mode": "avl", "timeout": 600}, bound="successor at most 2 levels down the left spine of the right child (subtree heights unbounded)",
+      replay={"prog": "trees_search.c", "sources": ["avl.c", "rbt.c"], "mode": "avl", "timeout": 600}, bound="successor at most 2 levels down the left spine of the right child (subtree heights unbounded)",
       cbmc=["--object-bits", "10"], solver="cadical", timeout=900, key=["handle_remove"]),
     U("avl_packed_accessors", "trees.c", "h_packed", level="P", functions=["a_avl_set_parent_factor", "a_avl_set_parent", "a_avl_set_factor", "a_avl_parent", "a_avl_factor", "a_avl_init"], replay=RP, min_obl=3, defines=["D=2"], cbmc=["--object-bits", "10"]),
     T("avl_insert_d2_packed", "h_insert", 2, tiers=("thorough",), functions=INS, timeout=1800, cost=100, mem_gb=40),
